@@ -55,6 +55,9 @@ struct World14 {
     int only = -1;
     int foreign_calls = 0, foreign_ok = 0;
     bool race_mode = false;
+    // one "window": a foreign thread makes its call while the owner thread is parked INSIDE a callback of the target module
+    struct Window { const Op *op = nullptr; int foreign_k = -1, owner_k = -1; int state = 0; int foreign_tid = -1, owner_tid = -1; bool owner_loop_done = false; } win;   // state: 0 none, 1 requested, 2 open, 3 served, 4 cancelled
+    std::vector<uint32_t> win_vc;
 };
 World14 *G;
 
@@ -103,6 +106,14 @@ void cb_evt(m_mod_t *self, const m_queue_t *const evts) {
     ModRec *m = rec_of(self);
     if (!m) VIOL("C14", "C14:handler-for-unknown-module", "an event handler ran for a module handle no context thread registered");
     CtxW &c = *m->cw;
+    if (!G->alone && G->win.state == 1 && G->win.owner_k == c.k && m->name != "deadline") {
+        G->win.state = 2;
+        G->win.owner_tid = sim::self_id();
+        sim::hb_release(G->win_vc);
+        sim::unpark(G->win.foreign_tid);
+        while (G->win.state == 2) sim::park();
+        sim::hb_acquire(G->win_vc);
+    }
     oracle_eval("C14.handler-on-owner-thread");
     if (sim::self_id() != c.tid)
         VIOL("C14", "C14:handler-on-foreign-thread", "handler of module %s (context %d) ran on thread %d, its context lives on thread %d", m->name.c_str(), c.k, sim::self_id(), c.tid);
@@ -229,12 +240,13 @@ void exec_own(CtxW &c, const Op &op) {
 }
 
 // observable state of one context as seen from outside, for the "no effect" clause
-std::string snapshot_ctx(CtxW &c) {
+std::string snapshot_ctx(CtxW &c, bool others_running = false) {
     std::ostringstream o;
     for (auto &m : c.mods) {
         if (!m.h) continue;
         o << m.name << ":" << (int)m_mod_state(m.h) << ":" << m.events << ";";
     }
+    if (others_running) return o.str();   // other contexts are looping: allocator, descriptor table and pipes are not the target's alone
     bool pool_threads = false;   // task threads of some context are at work: allocator and descriptor traffic is theirs
     for (auto &t : R->threads) if (t->name.rfind("lib", 0) == 0) pool_threads = true;
     if (!pool_threads) o << "alloc=" << R->a.outstanding() << ";";
@@ -250,17 +262,25 @@ std::string snapshot_ctx(CtxW &c) {
 static void dummy_evt(m_mod_t *, const m_queue_t *const) {}
 
 // a call on a module of context `t` issued by thread `c`
-void exec_foreign(CtxW &c, const Op &op) {
+size_t foreign_target(CtxW &c, const Op &op) {
+    size_t nt = G->ctxs.size();
+    return (size_t)((c.k + 1 + (op.arg(0) % (long)(nt - 1) + (long)(nt - 1)) % (long)(nt - 1)) % (long)nt);
+}
+void exec_foreign(CtxW &c, const Op &op, bool in_owner_callback = false) {
     if (G->alone) return;
     size_t nt = G->ctxs.size();
     if (nt < 2) return;
-    CtxW &t = G->ctxs[(size_t)((c.k + 1 + (op.arg(0) % (long)(nt - 1) + (long)(nt - 1)) % (long)(nt - 1)) % (long)nt)];
+    CtxW &t = G->ctxs[foreign_target(c, op)];
     if (&t == &c) return;
     ModRec *m = pick(t, op.arg(1));
+    if (in_owner_callback) {
+        // the module whose callback the owner is parked in
+        for (auto &mm : t.mods) if (mm.h && G->win.state == 2) { (void)mm; }
+    }
     if (!m || !m->h) return;
     ModRec *mine = pick(c, op.arg(3));
     int kind = (int)(((op.arg(2) % 34) + 34) % 34);
-    std::string before = snapshot_ctx(t);
+    std::string before = snapshot_ctx(t, in_owner_callback);
     uint64_t io_before = R->k.ios.size();
     long rc = 0;
     const char *what = "?";
@@ -312,6 +332,7 @@ void exec_foreign(CtxW &c, const Op &op) {
     }
     (void)getter_like;
     G->foreign_calls++;
+    if (in_owner_callback) R->ctr.probe("foreign_call_during_owner_callback");
     sim::tr("foreign", c.k, t.k, kind);
     oracle_eval("C14.foreign-call-refused");
     if (rc >= 0) {
@@ -325,7 +346,8 @@ void exec_foreign(CtxW &c, const Op &op) {
         VIOL("C14", sig, "%s on a module of another thread's context returned %ld, not a permission error (-EPERM)", what, rc);
     }
     oracle_eval("C14.foreign-call-no-effect");
-    std::string after = snapshot_ctx(t);
+    std::string after = snapshot_ctx(t, in_owner_callback);
+    if (in_owner_callback) io_before = R->k.ios.size();
     bool pool_threads = false;
     for (auto &th2 : R->threads) if (th2->name.rfind("lib", 0) == 0) pool_threads = true;
     if (pool_threads) io_before = R->k.ios.size();
@@ -361,6 +383,24 @@ void *ctx_thread(void *arg) {
     // ---- foreign calls while every context is quiescent
     for (const Op *op : c.foreign) exec_foreign(c, *op);
     barrier();
+    // ---- a call made while the owner is inside a callback of the target module (its loop is about to run / running)
+    if (!G->alone && G->win.op && G->win.foreign_k == c.k && G->win.state == 0 && !G->win.owner_loop_done) {
+        G->win.state = 1;
+        G->win.foreign_tid = sim::self_id();
+        while (G->win.state == 1) sim::park();
+        if (G->win.state == 2) {
+            sim::hb_acquire(G->win_vc);
+            // every module of the owner is a target: the one whose callback runs included
+            for (int i = 0; i < 3; i++) {
+                Op o = *G->win.op;
+                o.a[1] = o.arg(1) + i;
+                exec_foreign(c, o, true);
+            }
+            sim::hb_release(G->win_vc);
+            G->win.state = 3;
+            sim::unpark(G->win.owner_tid);
+        }
+    }
     // ---- loop
     if (c.has_ctx) {
         ModRec &d = c.mods[0];
@@ -368,7 +408,12 @@ void *ctx_thread(void *arg) {
         m_mod_src_register_tmr(d.h, &t, M_SRC_ONESHOT, nullptr);
         int rc = m_ctx_loop();
         obs(c, "loop rc=%d", rc);
+
         for (const Op *op : c.post) exec_own(c, *op);
+    }
+    if (G->win.owner_k == c.k) {
+        G->win.owner_loop_done = true;
+        if (G->win.state == 1) { G->win.state = 4; sim::unpark(G->win.foreign_tid); }   // no handler of ours ran in time (or we have no context): nothing to test
     }
     barrier();
     // ---- teardown
@@ -389,6 +434,7 @@ struct Result14 {
     int foreign_ok = 0;
     int events = 0;
     size_t nthreads = 0;
+    int window_foreigner = -1;
 };
 
 sim::Config cfg14(const Program &p, bool trace) {
@@ -429,7 +475,9 @@ Result14 run_once(const Program &p, bool trace, int only) {
         if (op.where.size() < 2 || op.where[0] != 'c') continue;
         int k = atoi(op.where.c_str() + 1) % n;
         CtxW &c = w.ctxs[(size_t)k];
-        if (op.name == "foreign") c.foreign.push_back(&op);
+        if (op.name == "foreign_in_cb") {
+            if (!w.win.op && n >= 2) { w.win.op = &op; w.win.foreign_k = k; w.win.owner_k = (int)foreign_target(c, op); }
+        } else if (op.name == "foreign") c.foreign.push_back(&op);
         else if (op.name.rfind("post_", 0) == 0) c.post.push_back(&op);
         else c.setup.push_back(&op);
     }
@@ -454,6 +502,7 @@ Result14 run_once(const Program &p, bool trace, int only) {
     r.horizon = R->horizon_hit || R->k.poll_failure_injected;
     r.foreign_ok = w.foreign_ok;
     r.nthreads = R->threads.size();
+    if (w.win.op && w.win.state != 0) r.window_foreigner = w.win.foreign_k;
     if (only < 0) {
         if (w.foreign_ok) R->ctr.probe("foreign_calls_refused", (uint64_t)w.foreign_ok);
         if (n >= 2) R->ctr.probe("runs_with_concurrent_loops");
@@ -482,6 +531,7 @@ RunResult run_ctxs(const Program &p, bool trace) {
     // independence: each context alone must observe exactly what it observed next to the others
     for (size_t k = 0; k < together.obs.size(); k++) {
         if (p.get("noctx", -1) == (long)k) continue;
+        if ((int)k == together.window_foreigner) continue;   // it delayed its own loop to make a call inside the other context's callback: not the same program as alone
         Result14 alone = run_once(p, false, (int)k);
         if (alone.horizon) continue;
         oracle_eval("C14.independence");
@@ -547,6 +597,7 @@ Program gen_ctxs(const std::string &campaign, uint64_t seed, bool thorough) {
                 break;
             }
         }
+        if (k == 0 && r.chance(0.5)) p.add(who, "foreign_in_cb", {(long)r.below(3), (long)r.below(4), (long)r.below(31), (long)r.below(4)});
         int nf = (int)r.range(0, 4);
         for (int i = 0; i < nf; i++) p.add(who, "foreign", {(long)r.below(3), (long)r.below(4), (long)r.below(34), (long)r.below(4)});
     }
